@@ -125,6 +125,8 @@ func (p Path) retDesc() string {
 // Scenario fixes the atoms.
 type Scenario struct {
 	Name string
+	// MaxDepth: how deep calls are evaluated in place (default 6).
+	MaxDepth int
 	// FreshBase: first number for the names the evaluator makes up (objects, cells); a scenario whose end state is
 	// fed into another evaluation uses a base of its own so that the names do not collide.
 	FreshBase int
@@ -300,6 +302,13 @@ type outcome struct {
 	st   *symState
 	ret  []SV
 	kind string
+}
+
+func (ev *symEval) maxDepth() int {
+	if ev.sc.MaxDepth > 0 {
+		return ev.sc.MaxDepth
+	}
+	return 6
 }
 
 func (ev *symEval) fresh(prefix string) string {
@@ -941,7 +950,7 @@ func (ev *symEval) doCall(fr *symFrame, st *symState, x *ssa.Call) ([]outcome, b
 		}
 		return step(0, st), true
 	}
-	if ev.sc.Redirect != nil && fr.depth < 12 {
+	if ev.sc.Redirect != nil && fr.depth < ev.maxDepth()+6 {
 		// the scenario resolves this call to a function of the program evaluated in place (e.g. a module looked
 		// up in a registry by name), with its own arguments; wrap turns the function's results into the call's
 		if f, fargs, wrap, ok := ev.sc.Redirect(id, args, ev, st); ok && f != nil && len(f.Blocks) > 0 {
@@ -981,7 +990,7 @@ func (ev *symEval) doCall(fr *symFrame, st *symState, x *ssa.Call) ([]outcome, b
 		}
 		return outs, true
 	}
-	if f := cc.StaticCallee(); f != nil && ev.inline(f) && fr.depth < 6 && len(f.Blocks) > 0 {
+	if f := cc.StaticCallee(); f != nil && ev.inline(f) && fr.depth < ev.maxDepth() && len(f.Blocks) > 0 {
 		var bind []SV
 		if mc, ok := cc.Value.(*ssa.MakeClosure); ok {
 			for _, b := range mc.Bindings {
